@@ -110,7 +110,16 @@ def r3_carry(ctx):
         bodies = [("sync", b) for b in F.bodies_with("buffered_reader", "XmlSource", end="read_with")] + [("async", b) for b in F.bodies_matching(r"TokioAdapter::read_with::\{closure#0\}$")]
         for kind, b in bodies:
             # the parser local is passed by &mut to feed in the loop and assigned nowhere else inside the loop
-            ploc = [l for l, n in b.names.items() if n == "parser"]
+            ploc = set()
+            for p in ctx.paths(b):
+                for c in calls(p):
+                    if name_is(c[2], "feed") and c[3]:
+                        r0 = root_of(strip_wrappers(c[3][0]))
+                        if r0[0] in ("arg", "loc"):
+                            ploc.add(r0[1])
+                        elif r0[0] == "phi":
+                            ploc.add(r0[2])
+            ploc = sorted(ploc)
             w = sym.Walker(b)
             inloop = set()
             for h, ls in w.loop_written.items():
